@@ -376,7 +376,8 @@ def r1_4(ctx: Ctx, rule="R1.4"):
     rets = [n for n in walk_no_nested(ca.node) if isinstance(n, ast.Return)]
     okc = False
     if len(rets) == 1:
-        v = rets[0].value
+        from ..pat import expand_single_defs as _xsd2
+        v = _xsd2(ca.node, rets[0].value)
         natoms = [p for p in ca.params if p != "self"]
         default = ca.node.args.defaults[-1] if ca.node.args.defaults else None
         if isinstance(v, ast.Subscript) and isinstance(v.slice, ast.Slice) and v.slice.lower is None \
@@ -391,7 +392,8 @@ def r1_4(ctx: Ctx, rule="R1.4"):
            node=rets[0] if rets else ca.node)
     call = [c for c in calls_in(g.node) if call_name(c) == "closest_atoms"]
     okn = False
-    if call and not call[0].args and not call[0].keywords:
+    two_explicit = bool(call) and not call[0].keywords and len(call[0].args) == 1 and const_int(call[0].args[0]) == 2
+    if call and ((not call[0].args and not call[0].keywords) or two_explicit):
         # ind1, ind2 = atom.closest_atoms(); positions = [atom.position, molecule[ind1].position, molecule[ind2].position]
         fb_calls = [c for c in calls_in(g.node) if call_name(c) == em.fb.name]
         if fb_calls:
@@ -434,8 +436,9 @@ def r1_5(ctx: Ctx, rule="R1.5"):
     rets = [n for n in walk_no_nested(f.node) if isinstance(n, ast.Return)]
     comp = [n for n in ast.walk(f.node) if isinstance(n, (ast.ListComp, ast.GeneratorExp))]
     ok_iter = ok_dist = ok_min = False
+    from ..pat import expand_single_defs as _xsd
     if comp:
-        c = comp[0]
+        c = _xsd(f.node, comp[0])
         ok_iter = attr_chain(c.generators[0].iter) == em.frames_attr and not c.generators[0].ifs
         elt = c.elt
         idx = norm(c.generators[0].target)
@@ -455,7 +458,7 @@ def r1_5(ctx: Ctx, rule="R1.5"):
                             helper_ok = True
                 ok_dist = refpos and helper_ok
     if rets:
-        v = rets[0].value
+        v = _xsd(f.node, rets[0].value)
         t = norm(v)
         ok_min = t.startswith("sorted(") and t.endswith(")[0][1]") and "reverse" not in t or \
             (t.startswith("min(") and t.endswith(")[1]"))
@@ -470,7 +473,7 @@ def r1_5(ctx: Ctx, rule="R1.5"):
     ctx.ob(rule, f, "distance expression", ok_dist,
            "candidates are ordered by the distance between the target atom's position and the anchor atom's position",
            node=comp[0] if comp else f.node)
-    t_ = norm(rets[0].value) if rets else ""
+    t_ = norm(_xsd(f.node, rets[0].value)) if rets else ""
     wrong = (t_.startswith("sorted(") and (t_.endswith(")[-1][1]") or "reverse" in t_)) or t_.startswith("max(") \
         or (t_.startswith("sorted(") and not t_.endswith(")[0][1]"))
     if ok_min or wrong or not rets:
